@@ -49,6 +49,16 @@ EXPLANATION = (
     'non-emptiness test; (D7) no writer builds the row container by np.array(<rows>, dtype=object); (D1) an attribute computed from a representation is a fourth representation every writer refreshes; (D6) append extends lengths and flat data in the same order by the lengths and the values of the same rows; (D5) the content rules of the index conversions (C05.D1 bounds / negative re-check / flat-to-2d) are run for the write path, every refusal on that path can fire (sign domain), every helper on it is covered; (D2) the class opts '
     'out of numpy operator dispatch so that numpy left operands reach the reflected operators; the slice-bound and '
     'index-dtype rules of the read path (C05.D2/D4/D5) are run for the helpers the writer reaches.  '
+    'Added in the fifth wave (case analysis): the writers are executed symbolically for every assignment of their branch '
+    'conditions, the conditions read as predicates (NONEMPTY, ISNONE, ITERABLE, RAGGED; a size is never negative): '
+    '(D1.constructor-cases) for each of the four input forms of the constructor the flat data, the lengths and the row view are '
+    'built by the reading of the argument that belongs to that form, and <array>[0] is read only from a non-empty argument; '
+    '(D1.writer-forms) every index form __setitem__ accepts ends in a store or the recursive call, a ragged value/argument is '
+    'replaced by its rows exactly when it is one, the value stored into the flat data is the join of its rows exactly for a '
+    'non-empty sequence of sequences; (D6.append.reinit-guard / row-forms.wrap) append re-runs the constructor on its argument '
+    'only for a blank array, wraps a flat row exactly when the first element is not iterable and joins along axis 0; '
+    '(D2.pure-operators.reduction) all/any/max/min/flatten are the reductions of that name over the whole flat data.  A verdict that '
+    'hinges on a condition the predicate reading does not understand is analysis-incomplete.  '
     'Statements are recognised by role after expansion '
     'of temporaries; an unrecognised re-synchronisation is reported as '
     'analysis-incomplete, not as a violation.  Agreement with the list-of-rows '
@@ -1152,6 +1162,12 @@ def d3_copy(ck, mod):
                 ck.ok(rule + '.data', mod, s, u(s)[:140], 'reached only when the caller passed copy=False: no copy is promised')
                 continue
             verdict = _copy_making(cx, v)
+            if verdict != 'match' and isinstance(v, ast.Name):
+                # a local with one definition per arm (try / except, if / else): every definition is judged
+                leaves = _defs_leaves(cx, s.value, s)
+                if leaves:
+                    vs = [_copy_making(cx, lv) for lv, _at in leaves]
+                    verdict = 'match' if all(x == 'match' for x in vs) else ('near' if 'near' in vs and 'far' not in vs else 'far')
             ck.decide(verdict, rule + '.data', mod, s, F, u(s)[:140],
                       'flat data is built by a copying constructor honouring the copy flag',
                       'self._data must be np.concatenate(...) or np.array(array, copy=copy): np.asarray / a bare '
@@ -2385,7 +2401,18 @@ def d6_append(ck, mod):
                 n += 1
                 has_axis = kwarg(c, 'axis') is not None or len(c.args) >= 3
                 ax = kwarg(c, 'axis') if kwarg(c, 'axis') is not None else (c.args[2] if len(c.args) >= 3 else None)
-                ck.check(has_axis and const_value(ax, 'x') is not None, rule, mod, s, q, 'flat data extended by np.append(%s._data, <new rows>)' % cx.me,
+                if has_axis and const_value(ax, 'x') != 0 or isinstance(const_value(ax, 'x'), bool):
+                    # an axis is named, but not the ragged one
+                    if isinstance(const_value(ax, 'x'), int) and not isinstance(const_value(ax, 'x'), bool):
+                        ck.bad(rule + '.ragged', mod, s, q, 'axis along which the new rows are joined to the flat data',
+                               'np.append(%s._data, <new rows>, axis=%s): the flat data is ragged along axis 0 only (its other axes are the '
+                               'element dimensions); joining along another axis raises for one-dimensional data and, for multi-dimensional '
+                               'elements, widens every element instead of adding rows - lengths and flat data no longer describe the same '
+                               'elements' % (cx.me, u(ax)))
+                    else:
+                        ck.missing(rule, '%s: axis of np.append(%s._data, ...) is not a constant: %s' % (q, cx.me, u(ax)[:60]))
+                    continue
+                ck.check(has_axis, rule, mod, s, q, 'flat data extended by np.append(%s._data, <new rows>)' % cx.me,
                          'appended along the ragged axis (axis=%s): the element dimensions are kept' % (u(ax) if ax is not None else '?'),
                          'np.append without axis flattens both operands: for a ragged array with multi-dimensional elements (flat data of shape '
                          '(N, 3), rows of shape (n_i, 3)) the flat data becomes one-dimensional, partition_list then raises DataInvalid, and the '
@@ -2393,6 +2420,14 @@ def d6_append(ck, mod):
                          '(np.append(..., axis=0) / np.concatenate([self._data, new]))')
             elif isinstance(c, ast.Call) and call_name(c) in ('np.concatenate', 'np.vstack') and _mentions_attr(cx, c, '_data'):
                 n += 1
+                ax = kwarg(c, 'axis') if kwarg(c, 'axis') is not None else (c.args[1] if call_name(c) == 'np.concatenate' and len(c.args) >= 2 else None)
+                if ax is not None and const_value(ax, 'x') != 0:
+                    if isinstance(const_value(ax, 'x'), int) or const_value(ax, 'x') is None:
+                        ck.bad(rule + '.ragged', mod, s, q, 'axis along which the new rows are joined to the flat data',
+                               '%s(..., axis=%s) over the flat data: it is ragged along axis 0 only' % (call_name(c), u(ax)))
+                    else:
+                        ck.missing(rule, '%s: axis of the join of the flat data is not a constant: %s' % (q, u(ax)[:60]))
+                    continue
                 ck.ok(rule, mod, s, u(s)[:120], 'joined along the first axis')
     if n == 0:
         ck.missing(rule, '%s: extension of the flat data (self._data = np.append(self._data, ...)) not found' % q)
@@ -2413,7 +2448,7 @@ def d6_append(ck, mod):
                 if isinstance(a, ast.Subscript) and isinstance(a.value, ast.Name) and a.value.id == V and const_value(a.slice, 'x') == 0:
                     return True
         return False
-    headers = [s for s in walk_local(fn) if isinstance(s, ast.If) and probes(s.test)]
+    headers = [s for s in walk_local(fn) if isinstance(s, ast.If) and (probes(s.test) or probes(cx.vexpand(s.test, s)))]
     if not headers:
         ck.ok(rule, mod, fn, '%s: no arm for a flat row' % q, 'the method does not distinguish a flat row from a sequence of rows')
         return
@@ -2712,8 +2747,852 @@ def d2_reflected_dispatch(ck, mod):
              'reflected methods are never called' % ', '.join(reflected[:4]))
 
 
+# ---------------------------------------------------------------------------
+# Case analysis of the writers: truth-table execution over SEMANTIC atoms
+#
+# Every writer starts with a case distinction on the FORM of its input (is the argument a ragged array, a sequence of
+# rows, a flat row, empty; are lengths given) and treats each form by another constructor of the three representations.
+# The typestate (D1) shows that the representations are re-synchronised, not that each form reaches the treatment written
+# for it.  The rules below execute the method symbolically for every assignment of its branch conditions.  The conditions
+# are read as predicates - NONEMPTY(x) for `0 < len(x)`, `len(x) != 0`, `x.size`, ...; ISNONE(x); ITERABLE(x);
+# RAGGED(x) for `type(x) is type(self)`; `len(x) < 0` is false and `0 <= len(x)` true for every x - so that a rewritten
+# test denotes the same atom and a test that no input can satisfy selects no path.  An atom over a name is forgotten when
+# the name is rebound; atoms over the receiver are forgotten at every representation event.  Try statements fork into
+# "body completes" / "a handler runs", loops into zero / one trip (their entries are flagged `maybe`).
+
+class _Entry:
+    __slots__ = ('kind', 'node', 'key', 'val', 'env', 'expr', 'generic', 'maybe')
+
+    def __init__(self, kind, node, key=None, val=None, env=None, expr=None, generic=False, maybe=False):
+        self.kind, self.node, self.key, self.val, self.env, self.expr, self.generic, self.maybe = \
+            kind, node, key, val, env, expr, generic, maybe
+
+
+class _Path:
+    __slots__ = ('env', 'trace', 'outcome', 'opaque')
+
+    def __init__(self, env, trace, outcome, opaque):
+        self.env, self.trace, self.outcome, self.opaque = env, trace, outcome, opaque
+
+    def stmts(self):
+        return [e for e in self.trace if e.kind == 'stmt']
+
+    def atoms(self):
+        return [e for e in self.trace if e.kind == 'atom']
+
+    def generic_over(self, names):
+        """Conditions evaluated on this path that the predicate reading does not understand and that mention one of
+        the names: a verdict that hinges on an undetermined predicate over them is 'not recognised', never a violation."""
+        return [e for e in self.trace if e.kind == 'atom' and e.generic and (set(names) & _names_in(e.expr))]
+
+
+def _names_in(e):
+    return {n.id for n in ast.walk(e) if isinstance(n, ast.Name)} if isinstance(e, ast.AST) else set()
+
+
+def _num(e):
+    v = const_value(e, None) if isinstance(e, (ast.Constant, ast.UnaryOp)) else None
+    return v if isinstance(v, (int, float)) and not isinstance(v, bool) else None
+
+
+def _size_of(e):
+    """X when `e` is the number of elements (first-axis extent) of X."""
+    if isinstance(e, ast.Call) and call_name(e) in ('len', 'np.size') and len(e.args) == 1 and not e.keywords:
+        return e.args[0]
+    if isinstance(e, ast.Attribute) and e.attr == 'size':
+        return e.value
+    b = match('_X.shape[0]', e)
+    if b is not None:
+        return b['_X']
+    return None
+
+
+def _ragged_of(cx, e):
+    """(name, polarity) when `e` holds exactly when the local `name` is (is not) a ragged array of the receiver's class."""
+    for n in ast.walk(e):
+        if isinstance(n, ast.Name) and n.id != cx.me and n.id not in ('type', 'isinstance', CLS, 'ra'):
+            v = _ragged_type_test(cx, e, n.id)
+            if v:
+                return n.id, v > 0
+    return None
+
+
+def _atom(cx, e):
+    """Predicate reading of an atomic condition: ('const', bool) or (key, polarity, generic)."""
+    if isinstance(e, ast.Constant):
+        return ('const', bool(e.value))
+    if isinstance(e, ast.Compare) and len(e.ops) == 1:
+        op, a, b = type(e.ops[0]), e.left, e.comparators[0]
+        if op is ast.Gt:
+            op, a, b = ast.Lt, b, a
+        elif op is ast.GtE:
+            op, a, b = ast.LtE, b, a
+        rg = _ragged_of(cx, e)
+        if rg is not None:
+            return (('ragged', rg[0]), rg[1], False)
+        if op in (ast.Is, ast.IsNot, ast.Eq, ast.NotEq):
+            for x, y in ((a, b), (b, a)):
+                if isinstance(y, ast.Constant) and y.value is None:
+                    return (('isnone', u(x)), op in (ast.Is, ast.Eq), False)
+        sa, sb, ka, kb = _size_of(a), _size_of(b), _num(a), _num(b)
+        if sb is not None and ka is not None:          # k OP size
+            key = ('nonempty', u(sb))
+            if op is ast.Lt:
+                if ka < 0:
+                    return ('const', True)
+                if ka == 0:
+                    return (key, True, False)
+            elif op is ast.LtE:
+                if ka <= 0:
+                    return ('const', True)
+                if ka == 1:
+                    return (key, True, False)
+        if sa is not None and kb is not None:          # size OP k
+            key = ('nonempty', u(sa))
+            if op is ast.Lt:
+                if kb <= 0:
+                    return ('const', False)
+                if kb == 1:
+                    return (key, False, False)
+            elif op is ast.LtE:
+                if kb < 0:
+                    return ('const', False)
+                if kb == 0:
+                    return (key, False, False)
+        for s_, k_ in ((sa, kb), (sb, ka)):
+            if s_ is not None and k_ is not None and op in (ast.Eq, ast.NotEq):
+                if k_ < 0:
+                    return ('const', op is ast.NotEq)
+                if k_ == 0:
+                    return (('nonempty', u(s_)), op is ast.NotEq, False)
+        thr = (sa is not None and kb is not None) or (sb is not None and ka is not None)    # a size against a threshold
+        if op in (ast.Eq, ast.NotEq, ast.Is, ast.IsNot):
+            return (('cmp', '==' if op in (ast.Eq, ast.NotEq) else 'is') + tuple(sorted((u(a), u(b)))), op in (ast.Eq, ast.Is), not thr)
+        if op is ast.Lt:
+            return (('cmp', '<', u(a), u(b)), True, not thr)
+        if op is ast.LtE:
+            return (('cmp', '<', u(b), u(a)), False, not thr)   # for numbers: a <= b  ==  not (b < a)
+        return (('expr', u(e)), True, True)
+    if isinstance(e, ast.Call):
+        cn = (call_name(e) or '').split('.')[-1]
+        if cn in ('_is_iterable', 'iterable') and len(e.args) == 1 and not e.keywords:
+            return (('iter', u(e.args[0])), True, False)
+        if cn == 'isscalar' and len(e.args) == 1 and not e.keywords:
+            return (('iter', u(e.args[0])), False, True)        # not exactly the complement (strings): a generic reading
+        rg = _ragged_of(cx, e)
+        if rg is not None:
+            return (('ragged', rg[0]), rg[1], False)
+        b = match('(_L == _L[0]).all()', e)
+        if b is not None:
+            return (('alleq', u(b['_L'])), True, False)
+        b = match('(_L != _L[0]).any()', e) or match('(_L - _L[0]).any()', e)
+        if b is not None:
+            return (('alleq', u(b['_L'])), False, False)
+    sz = _size_of(e)
+    if sz is not None:
+        return (('nonempty', u(sz)), True, False)               # a size as a truth value
+    return (('expr', u(e)), True, True)
+
+
+class Cases:
+    """All paths of one method as (final env, trace, outcome)."""
+    LIMIT = 6000
+    _cache = {}
+
+    @classmethod
+    def of(cls, cx):
+        k = id(cx.fn)
+        hit = cls._cache.get(k)
+        if hit is None or hit[0] is not cx.fn:
+            hit = (cx.fn, cls(cx))
+            cls._cache[k] = hit
+        return hit[1]
+
+    def __init__(self, cx):
+        self.cx = cx
+        self.paths = []
+        self.overflow = False
+        self.todo = [[]]
+        while self.todo:
+            if len(self.paths) >= self.LIMIT:
+                self.overflow = True
+                break
+            self._run(self.todo.pop())
+
+    # one run under a prefix of decisions
+    def _run(self, prefix):
+        self.prefix, self.k, self.made = prefix, 0, []
+        self.env, self.names, self.trace, self.opaque = {}, {}, [], False
+        out = self._block(self.cx.fn.body, False)
+        self.paths.append(_Path(dict(self.env), self.trace, out or 'fall', self.opaque))
+
+    def _choose(self, key):
+        if self.k < len(self.prefix):
+            v = self.prefix[self.k]
+        else:
+            v = True
+            self.todo.append(self.made + [False])
+        self.k += 1
+        self.made.append(v)
+        return v
+
+    def _decide(self, key, names, expr, stmt, generic, maybe):
+        snap = dict(self.env)
+        if key in self.env:
+            v = self.env[key]
+        else:
+            v = self._choose(key)
+            self.env[key] = v
+            self.names[key] = names
+        self.trace.append(_Entry('atom', stmt, key, v, snap, expr, generic, maybe))
+        return v
+
+    def _forget(self, name):
+        for k in [k for k, ns in self.names.items() if name in ns and k in self.env]:
+            del self.env[k]
+
+    def _test(self, e, stmt, maybe):
+        if isinstance(e, ast.BoolOp):
+            is_and = isinstance(e.op, ast.And)
+            for v in e.values:
+                r = self._test(v, stmt, maybe)
+                if r != is_and:
+                    return r
+            return is_and
+        if isinstance(e, ast.UnaryOp) and isinstance(e.op, ast.Not):
+            return not self._test(e.operand, stmt, maybe)
+        if isinstance(e, ast.IfExp):
+            return self._test(e.body if self._test(e.test, stmt, maybe) else e.orelse, stmt, maybe)
+        a = _atom(self.cx, e)
+        if a[0] == 'const':
+            return a[1]
+        key, pol, generic = a
+        return self._decide(key, _names_in(e), e, stmt, generic, maybe) == pol
+
+    def _ifexps(self, e, s, maybe):
+        """Conditional expressions in a statement are case distinctions too: decide them (outermost first)."""
+        if isinstance(e, ast.IfExp):
+            t = self._test(self.cx.vexpand(e.test, s), s, maybe)
+            self.trace.append(_Entry('ifexp', e, val=t, maybe=maybe))
+            self._ifexps(e.body if t else e.orelse, s, maybe)
+            return
+        if isinstance(e, (ast.ListComp, ast.SetComp, ast.DictComp, ast.GeneratorExp, ast.Lambda)) or not isinstance(e, ast.AST):
+            return
+        for c in ast.iter_child_nodes(e):
+            self._ifexps(c, s, maybe)
+
+    def _simple(self, s, maybe):
+        cx = self.cx
+        if not isinstance(s, (ast.FunctionDef, ast.AsyncFunctionDef, ast.ClassDef)):
+            for e in header_exprs(s):
+                self._ifexps(e, s, maybe)
+        self.trace.append(_Entry('stmt', s, env=dict(self.env), maybe=maybe))
+        bound = set()
+        tg = s.targets if isinstance(s, (ast.Assign, ast.Delete)) else ([s.target] if isinstance(s, (ast.AugAssign, ast.AnnAssign, ast.For)) else [])
+        for t in tg:
+            for x in ast.walk(t):
+                if isinstance(x, ast.Name) and isinstance(x.ctx, (ast.Store, ast.Del)):
+                    bound.add(x.id)
+            r = t
+            while isinstance(r, (ast.Subscript, ast.Attribute, ast.Starred)):
+                r = r.value
+            if isinstance(r, ast.Name) and r is not t:
+                bound.add(r.id)            # stored into in place
+        if isinstance(s, (ast.With, ast.AsyncWith)):
+            for it in s.items:
+                if it.optional_vars is not None:
+                    bound |= {x.id for x in ast.walk(it.optional_vars) if isinstance(x, ast.Name)}
+        for e in header_exprs(s) if not isinstance(s, (ast.FunctionDef, ast.AsyncFunctionDef, ast.ClassDef)) else []:
+            for c in walk_expr(e):
+                if isinstance(c, ast.Call) and isinstance(c.func, ast.Attribute) and c.func.attr in MUT_METHODS and \
+                        isinstance(c.func.value, ast.Name):
+                    bound.add(c.func.value.id)
+                if isinstance(c, ast.NamedExpr) and isinstance(c.target, ast.Name):
+                    bound.add(c.target.id)
+        try:
+            if cx.events(s):
+                bound.add(cx.me)
+        except Exception:
+            bound.add(cx.me)
+        for n in bound:
+            self._forget(n)
+
+    def _block(self, stmts, maybe):
+        cx = self.cx
+        for s in stmts:
+            if isinstance(s, ast.If):
+                t = self._test(cx.vexpand(s.test, s), s, maybe)
+                r = self._block(s.body if t else s.orelse, maybe)
+                if r:
+                    return r
+            elif isinstance(s, ast.Try):
+                if not self._choose(('exc', id(s))):
+                    r = self._block(s.body, maybe) or self._block(s.orelse, maybe)
+                else:
+                    self._block(s.body, True)
+                    r = 'raise'
+                    for i, h in enumerate(s.handlers):
+                        if i == len(s.handlers) - 1 or self._choose(('handler', id(h))):
+                            r = self._block(h.body, maybe)
+                            break
+                r = self._block(s.finalbody, maybe) or r
+                if r:
+                    return r
+            elif isinstance(s, (ast.With, ast.AsyncWith)):
+                self._simple(s, maybe)
+                r = self._block(s.body, maybe)
+                if r:
+                    return r
+            elif isinstance(s, (ast.For, ast.AsyncFor, ast.While)):
+                self._simple(s, maybe)
+                if self._choose(('loop', id(s))):
+                    r = self._block(s.body, True)
+                    if r in ('return', 'raise'):
+                        self.opaque = True      # an exit from inside a loop: not followed
+                    for x in ast.walk(s):
+                        if isinstance(x, ast.Name) and isinstance(x.ctx, ast.Store):
+                            self._forget(x.id)
+                r = self._block(s.orelse, maybe)
+                if r:
+                    return r
+            elif isinstance(s, ast.Return):
+                self._simple(s, maybe)
+                return 'return'
+            elif isinstance(s, ast.Raise):
+                self._simple(s, maybe)
+                return 'raise'
+            elif isinstance(s, (ast.Break, ast.Continue)):
+                return 'loop-exit'
+            elif isinstance(s, (ast.FunctionDef, ast.AsyncFunctionDef, ast.ClassDef)):
+                continue
+            elif type(s).__name__ == 'Match':
+                self.opaque = True
+                self._simple(s, maybe)
+            else:
+                self._simple(s, maybe)
+        return None
+
+
+def _tri(path, val, names):
+    """Verdict for a requirement on a predicate whose value on the path is `val` (True / False / None = undetermined)
+    and which was NOT met: 'near' - unless the path tested conditions over the same operands that the predicate
+    reading does not understand (the requirement may be met in a spelling the rule cannot read) -> 'far'."""
+    return 'far' if (path.opaque or path.generic_over(names)) else 'near'
+
+
+def _me_store(cx, s, attr):
+    return isinstance(s, ast.Assign) and len(s.targets) == 1 and cx.is_me_attr(s.targets[0], attr)
+
+
+class _Once:
+    """Report each (rule, construct) once although many paths show it: a violation when some path decides it ('near'),
+    'not recognised' when every path that shows it also tests conditions the predicate reading does not understand."""
+
+    def __init__(self, ck, mod, q):
+        self.ck, self.mod, self.q, self.seen, self.n_bad, self.pending = ck, mod, q, set(), 0, {}
+
+    def missing(self, rule, what):
+        if (rule, what) not in self.seen:
+            self.seen.add((rule, what))
+            self.ck.missing(rule, what)
+
+    def decide(self, verdict, rule, node, construct, detail):
+        cur = self.pending.get((rule, construct))
+        if cur is None or (cur[0] != 'near' and verdict == 'near'):
+            self.pending[(rule, construct)] = (verdict, node, detail)
+
+    def bad(self, rule, node, construct, detail):
+        self.decide('near', rule, node, construct, detail)
+
+    def flush(self):
+        for (rule, construct), (verdict, node, detail) in self.pending.items():
+            if verdict == 'near':
+                self.n_bad += 1
+                self.ck.bad(rule, self.mod, node, self.q, construct, detail)
+            else:
+                self.ck.missing(rule, '%s: %s - not decided: the path also tests conditions over the same operands that the predicate '
+                                'reading does not understand (%s)' % (self.q, construct, detail[:120]))
+        self.pending = {}
+
+
+# -- the constructor
+
+def _ctor_data_kind(cx, v, A):
+    x = _unwrap_seq(v)
+    if isinstance(x, ast.Name) and x.id == A and cx.param_only(x):
+        return 'flat'
+    if isinstance(v, ast.Call) and call_name(v) in _JOIN_FUNCS | {'np.stack'} and len(v.args) >= 1 and isinstance(v.args[0], ast.Name) \
+            and v.args[0].id == A and cx.param_only(v.args[0]):
+        return 'rows'
+    if isinstance(x, (ast.ListComp, ast.GeneratorExp)) and len(x.generators) >= 1 and isinstance(x.generators[0].iter, ast.Name) and \
+            x.generators[0].iter.id == A:
+        return 'rows'           # the elements of the rows, row after row (object fallback of the join)
+    return None
+
+
+def _ctor_lengths_kind(cx, v, A, L):
+    x = _unwrap_seq(v)
+    if isinstance(x, ast.Name) and x.id == L and cx.param_only(x):
+        return 'given'
+    if isinstance(x, (ast.List, ast.Tuple)):
+        if not x.elts:
+            return 'none'
+        if len(x.elts) == 1:
+            of = _is_len_of(x.elts[0])
+            if isinstance(of, ast.Name) and of.id == A:
+                return 'single'
+        return None
+    if isinstance(x, (ast.ListComp, ast.GeneratorExp)) and len(x.generators) == 1 and not x.generators[0].ifs and \
+            isinstance(x.generators[0].target, ast.Name) and isinstance(x.generators[0].iter, ast.Name) and x.generators[0].iter.id == A:
+        return 'per-row' if _is_len_of(x.elt, x.generators[0].target.id) is not None else None
+    if isinstance(x, ast.Call) and call_name(x) == 'map' and len(x.args) == 2 and u(x.args[0]) == 'len' and isinstance(x.args[1], ast.Name) \
+            and x.args[1].id == A:
+        return 'per-row'
+    return None
+
+
+def _ctor_rows_kind(cx, s, L):
+    E = cx.vexpand(s.value, s)
+    if isinstance(E, (ast.List, ast.Tuple)) and not E.elts:
+        return 'empty'
+    if isinstance(E, ast.Call) and call_name(E) in ('np.array', 'np.asarray') and E.args and isinstance(E.args[0], ast.Call) \
+            and (call_name(E.args[0]) or '').split('.')[-1] == 'partition_list':
+        a = E.args[0]
+        flat, lens = arg_or_kw(a, 0, 'list_to_partition'), arg_or_kw(a, 1, 'partition_lengths')
+        if flat is None or lens is None or not cx.is_me_attr(flat, '_data'):
+            return None
+        if isinstance(lens, ast.Name) and lens.id == L and cx.param_only(lens):
+            return 'cut-given'
+        if cx.is_me_attr(lens, 'lengths') or _is_current_lengths(cx, lens, s):
+            return 'cut-own'
+        return None
+    if isinstance(E, ast.Call) and isinstance(E.func, ast.Attribute) and E.func.attr == 'reshape' and cx.is_me_attr(E.func.value, '_data'):
+        uses_L = any(isinstance(n, ast.Name) and n.id == L for a in list(E.args) + [k.value for k in E.keywords] for n in ast.walk(a))
+        return 'rect' if uses_L else 'one-row'
+    return None
+
+
+_CTOR_CASES = (
+    # name, (ISNONE(lengths), NONEMPTY(array), ITERABLE(array[0])), flat data, lengths, accepted row views
+    ('lengths given', (False, None, None), 'flat', 'given', ('rect', 'cut-given')),
+    ('lengths inferred, empty input', (True, False, None), 'flat', 'none', ('empty',)),
+    ('lengths inferred, sequence of rows', (True, True, True), 'rows', 'per-row', ('cut-own',)),
+    ('lengths inferred, one flat row', (True, True, False), 'flat', 'single', ('one-row', 'cut-own')),
+)
+_KIND_TEXT = {'flat': 'the argument taken as the flat data', 'rows': 'the rows of the argument joined end to end',
+              'given': 'the lengths argument', 'none': 'no rows', 'per-row': 'one length per row of the argument',
+              'single': 'one row holding the whole argument', 'rect': 'rectangular view (n_rows x row length)',
+              'cut-given': 'flat data cut by the lengths argument', 'cut-own': 'flat data cut by self.lengths',
+              'one-row': 'one-row view of the flat data', 'empty': 'no rows', None: 'not recognised'}
+
+
+def d1_constructor_cases(ck, mod):
+    """The constructor is the re-synchronisation primitive of every writer (`self.__init__(self._array)`, append on a
+    blank array, every operator result, every slice).  It distinguishes four input forms and must build the three
+    representations by the SAME reading of the input in each: for a sequence of rows the flat data is their join, the
+    lengths are their lengths and the rows cut the flat data by those lengths; with lengths given the argument IS the
+    flat data; and so on.  A test of the case distinction that is inverted, widened or unsatisfiable sends a form to the
+    treatment of another one (flat data joined but lengths 'given', a flat row read as rows ...): the representations
+    then disagree from the first observation on."""
+    rule = 'C06.D1.constructor-cases'
+    q = CLS + '.__init__'
+    fn = mod.functions.get(q)
+    if fn is None or len(params(fn)) < 3:
+        ck.missing(rule, '%s(self, array, lengths, ...) not found' % q)
+        return 0
+    cx = Ctx(mod, fn)
+    A, L = cx.params[1], cx.params[2]
+    cs = Cases.of(cx)
+    if cs.overflow:
+        ck.missing(rule, '%s: more than %d paths' % (q, Cases.LIMIT))
+        return 0
+    once = _Once(ck, mod, q)
+    kLN, kNE, kIT, kEQ = ('isnone', L), ('nonempty', A), ('iter', '%s[0]' % A), ('alleq', L)
+    # a rebound parameter is re-read by later tests as a new value: the paths are then an over-approximation
+    rebound = bool(assigns_to(fn, A) or assigns_to(fn, L))
+
+    def tri(p, names):
+        return 'far' if rebound else _tri(p, None, names)
+    seen_ok = {}
+    for p in cs.paths:
+        if p.outcome == 'raise':
+            continue
+        last = {}
+        for e in p.stmts():
+            for attr in FLAG:
+                if _me_store(cx, e.node, attr):
+                    last[attr] = e
+        # the first element is read only from a non-empty argument
+        for a in p.atoms():
+            if any(isinstance(x, ast.Subscript) and isinstance(x.value, ast.Name) and x.value.id == A and const_value(x.slice, 'x') == 0
+                   and not isinstance(const_value(x.slice, 'x'), bool) for x in ast.walk(a.expr)):
+                ne = a.env.get(kNE)
+                if ne is not True:
+                    once.decide(tri(p, (A,)), rule + '.probe', a.node, 'probe of the first element of the argument (<array>[0])',
+                                'the constructor reads `%s[0]` on a path on which the argument is %s: RaggedArray([]) - the blank array that '
+                                'append() documents as its starting point - raises IndexError' % (A, 'empty' if ne is False else 'not known to be non-empty'))
+        if p.opaque:
+            once.missing(rule, '%s: a path through a construct the case analysis does not follow (match / exit inside a loop)' % q)
+            continue
+        kinds = {}
+
+        def val(entry):
+            # the stored value on THIS path (a name with one definition per arm is followed along the path), temporaries expanded
+            i = p.trace.index(entry)
+            leaf, j = _resolve(p, i, entry.node.value, keep=(A, L))
+            if leaf is None:
+                return ast.Constant(value=Ellipsis)
+            return cx.vexpand(leaf, p.trace[j].node)
+        if '_data' in last:
+            kinds['_data'] = _ctor_data_kind(cx, val(last['_data']), A)
+        if 'lengths' in last:
+            kinds['lengths'] = _ctor_lengths_kind(cx, val(last['lengths']), A, L)
+        if '_array' in last:
+            kinds['_array'] = _ctor_rows_kind(cx, last['_array'].node, L)
+        if len(last) < 3:
+            continue            # a slot left unset on this path: D4.constructor-definite-attributes.exit
+        env = (p.env.get(kLN), p.env.get(kNE), p.env.get(kIT))
+        for name, want, kd, kl, krows in _CTOR_CASES:
+            if any(w is not None and v is not None and w != v for w, v in zip(want, env)):
+                continue        # the path is not taken for this form
+            # the path is taken for (some input of) this form: undetermined predicates mean it is taken for both values
+            got = (kinds.get('_data'), kinds.get('lengths'), kinds.get('_array'))
+            if None in got:
+                which = [a for a, g in zip(('flat data', 'lengths', 'row view'), got) if g is None]
+                once.missing(rule, '%s, case "%s": definition of the %s not recognised (%s)' % (
+                    q, name, which[0], u(last[{'flat data': '_data', 'lengths': 'lengths', 'row view': '_array'}[which[0]]].node)[:100]))
+                continue
+            okc = got[0] == kd and got[1] == kl and got[2] in krows
+            if okc and got[2] == 'rect' and p.env.get(kEQ) is not True:
+                once.decide(tri(p, (L,)), rule, last['_array'].node,
+                            'constructor case "%s": rectangular row view without equal lengths' % name,
+                            'the rows x row-length view of the flat data is taken on a path on which the lengths are %s: rows of '
+                            'different lengths are cut at multiples of the first length' % (
+                                'NOT all equal' if p.env.get(kEQ) is False else 'not known to be all equal'))
+                continue
+            if okc:
+                seen_ok.setdefault(name, last['_array'].node)
+                continue
+            undet = [n for n, w, v in zip(('ISNONE(%s)' % L, 'NONEMPTY(%s)' % A, 'ITERABLE(%s[0])' % A), want, env) if w is not None and v is None]
+            bad_attr = '_data' if got[0] != kd else ('lengths' if got[1] != kl else '_array')
+            once.decide(tri(p, (A, L)), rule, last[bad_attr].node,
+                        'constructor case "%s": %s' % (name, {'_data': 'flat data', 'lengths': 'lengths', '_array': 'row view'}[bad_attr]),
+                        'for this input form the constructor must build flat data = %s, lengths = %s, rows = %s; a path taken for it%s builds '
+                        'flat data = %s, lengths = %s, rows = %s.  The representations are built by different readings of the same input '
+                        '(or by the reading for another form): rows, flat data, lengths and every re-initialisation through the '
+                        'constructor (slices, operator results, `a[i] = row`, append on a blank array) disagree with the list-of-rows model'
+                        % (_KIND_TEXT[kd], _KIND_TEXT[kl], ' / '.join(_KIND_TEXT[k] for k in krows),
+                           (' (taken whatever %s is)' % ', '.join(undet)) if undet else '',
+                           _KIND_TEXT[got[0]], _KIND_TEXT[got[1]], _KIND_TEXT[got[2]]))
+    once.flush()
+    n = 0
+    for name, _w, kd, kl, krows in _CTOR_CASES:
+        if name in seen_ok:
+            n += 1
+            ck.ok(rule, mod, seen_ok[name], '%s, case "%s"' % (q, name), 'flat data = %s, lengths = %s, rows = %s on every path taken for it' % (
+                _KIND_TEXT[kd], _KIND_TEXT[kl], ' / '.join(_KIND_TEXT[k] for k in krows)))
+    ck.floor(rule, n + once.n_bad, 4, 'input forms of the constructor with a recognised treatment')
+    return n
+
+
+
+# -- __setitem__ / append
+
+def _resolve(path, idx, e, keep=()):
+    """The expression whose value `e` has at trace position idx on this path: a local name is followed to its last
+    assignment on the path (never past a name in `keep`), a conditional expression to the arm the path takes."""
+    choice = {id(t.node): t.val for t in path.trace if t.kind == 'ifexp'}
+    for _ in range(12):
+        if isinstance(e, ast.IfExp) and id(e) in choice:
+            e = e.body if choice[id(e)] else e.orelse
+            continue
+        if not isinstance(e, ast.Name) or e.id in keep:
+            return e, idx
+        found = None
+        for j in range(idx - 1, -1, -1):
+            t = path.trace[j]
+            if t.kind == 'stmt' and isinstance(t.node, (ast.Assign, ast.AugAssign, ast.AnnAssign, ast.For, ast.With)) and \
+                    e.id in {x.id for tg in (t.node.targets if isinstance(t.node, ast.Assign) else [getattr(t.node, 'target', None)]) if tg is not None
+                             for x in ast.walk(tg) if isinstance(x, ast.Name) and isinstance(x.ctx, ast.Store)}:
+                found = j
+                break
+        if found is None:
+            return e, idx
+        node = path.trace[found].node
+        if isinstance(node, ast.Assign) and len(node.targets) == 1 and isinstance(node.targets[0], ast.Name) and not path.trace[found].maybe:
+            e, idx = node.value, found
+            continue
+        return None, found
+    return None, idx
+
+
+def _is_unwrap(s, V=None):
+    """`N = V._array` / `N = V._data`: the representation of a ragged operand taken in its place -> (N, V)."""
+    if isinstance(s, ast.Assign) and len(s.targets) == 1 and isinstance(s.targets[0], ast.Name) and isinstance(s.value, ast.Attribute) \
+            and s.value.attr in ('_array', '_data') and isinstance(s.value.value, ast.Name) and (V is None or s.value.value.id == V):
+        return s.targets[0].id, s.value.value.id
+    return None
+
+
+def _ragged_operand(ck, mod, q, cx, V, once):
+    """The rows of a ragged operand replace it exactly when it IS a ragged array."""
+    rule = 'C06.D1.writer-forms.ragged-operand'
+    cs = Cases.of(cx)
+    sites = [s for s in walk_local(cx.fn) if _is_unwrap(s, V)]
+    if not sites:
+        ck.missing(rule, '%s: no statement takes the rows of a ragged `%s` in its place (<name> = %s._array)' % (q, V, V))
+        return 0
+    key = ('ragged', V)
+    for p in cs.paths:
+        if p.outcome == 'raise':
+            continue
+        done = False
+        for i, e in enumerate(p.trace):
+            if e.kind == 'stmt' and _is_unwrap(e.node, V) and cx.fi.rd.defs_at(e.node, V) == {'PARAM'}:
+                done = True
+                rg = e.env.get(key)
+                if rg is not True:
+                    once.decide(_tri(p, rg, (V,)), rule, e.node, 'rows of the operand taken in its place (<operand>._array) for a non-ragged operand',
+                                '`%s` is executed on a path on which `%s` is %s: every ordinary value (scalar, list, ndarray) has no '
+                                '_array and the write raises AttributeError, while a ragged value is used as an object' % (
+                                    u(e.node), V, 'NOT a ragged array' if rg is False else 'not known to be a ragged array'))
+        if not done and any(a.key == key and a.val is True for a in p.atoms()) and all(_is_unwrap(s, V)[0] == V for s in sites):
+            a0 = [a for a in p.atoms() if a.key == key and a.val is True][0]
+            once.decide(_tri(p, True, (V,)), rule, a0.node, 'ragged operand used without taking its rows',
+                        'on a path on which `%s` is a ragged array its rows are not taken in its place' % V)
+    return len(sites)
+
+
+def _events_on(cx, p, kinds, whats=None):
+    out = []
+    for i, e in enumerate(p.trace):
+        if e.kind != 'stmt':
+            continue
+        for kind, what, stmt, extra in cx.events(e.node):
+            if kind in kinds and (whats is None or what in whats):
+                out.append((i, e, kind, what, extra))
+    return out
+
+
+def d1_setitem_forms(ck, mod):
+    """`a[index] = value`: (1) every index form the method accepts ends in a write (a store into a representation or
+    the recursive call for a mask) - an accepted form that writes nothing silently drops the assignment; (2) a ragged
+    value contributes its rows exactly when it is one; (3) the value stored into the flat data is the join of the rows
+    of `value` exactly for a non-empty sequence of sequences and `value` itself otherwise - the other reading of a form
+    raises (len() of a scalar, concatenate of scalars) or stores row objects into single cells."""
+    q = CLS + '.__setitem__'
+    fn = mod.functions.get(q)
+    rule = 'C06.D1.writer-forms'
+    if fn is None or len(params(fn)) < 3:
+        ck.missing(rule, '%s(self, index, value) not found' % q)
+        return
+    cx = Ctx(mod, fn, _writer_helpers(mod))
+    I, V = cx.params[1], cx.params[2]
+    cs = Cases.of(cx)
+    if cs.overflow:
+        ck.missing(rule, '%s: more than %d paths' % (q, Cases.LIMIT))
+        return
+    once = _Once(ck, mod, q)
+    _ragged_operand(ck, mod, q, cx, V, once)
+    kVI, kVN, kV0 = ('iter', V), ('nonempty', V), ('iter', '%s[0]' % V)
+    n_forms, n_flat = 0, 0
+    for p in cs.paths:
+        if p.outcome == 'raise':
+            continue
+        # (1) accepted index form -> a write
+        acc = [a for a in p.atoms() if a.val is True and ((a.key == ('ragged', I)) or (
+            isinstance(a.expr, ast.Call) and call_name(a.expr) == 'isinstance' and a.expr.args and isinstance(a.expr.args[0], ast.Name)
+            and a.expr.args[0].id == I))]
+        writes = _events_on(cx, p, ('store', 'recurse', 'opaque'))
+        if acc:
+            n_forms += 1
+            if not writes and not p.opaque:
+                once.decide(_tri(p, None, ()), rule + '.accepted-index-writes', acc[0].node,
+                            'accepted index form (%s) that writes nothing' % u(acc[0].expr)[:80],
+                            'a path that accepts the index (`%s` holds) returns normally without a store into a representation and '
+                            'without the recursive call: `a[i] = v` is silently dropped for this index form, every later read shows the old '
+                            'content where the list-of-rows model shows v' % u(acc[0].expr)[:80])
+        # (3) what goes into the flat data
+        for i, e, kind, what, _x in writes:
+            if not (kind == 'store' and what == '_data' and isinstance(e.node, ast.Assign) and isinstance(e.node.targets[0], ast.Subscript)
+                    and cx.is_me_attr(e.node.targets[0].value, '_data')):
+                continue
+            leaf, _at = _resolve(p, i, e.node.value, keep=(V,))
+            if leaf is None:
+                once.missing(rule + '.value-flattening', '%s: the value stored into the flat data is not followed to its definition (%s)' % (q, u(e.node)[:80]))
+                continue
+            vi, vn, v0 = e.env.get(kVI), e.env.get(kVN), e.env.get(kV0)
+            if isinstance(leaf, ast.Name) and leaf.id == V:
+                n_flat += 1
+                if not (vi is False or vn is False or v0 is False):
+                    once.decide(_tri(p, None, (V,)), rule + '.value-flattening', e.node, 'value stored as it is for a sequence of rows',
+                                'the flat data receives `%s` unchanged on a path on which nothing excludes a non-empty sequence of sequences '
+                                '(ITERABLE(%s) %s, ITERABLE(%s[0]) %s): row objects are stored into single cells / the shapes do not match'
+                                % (V, V, vi, V, v0))
+            elif isinstance(leaf, ast.Call) and call_name(leaf) in _JOIN_FUNCS and len(leaf.args) == 1 and isinstance(leaf.args[0], ast.Name) \
+                    and leaf.args[0].id == V:
+                n_flat += 1
+                if vi is not True or v0 is not True:
+                    once.decide(_tri(p, None, (V,)), rule + '.value-flattening', e.node, 'rows of the value joined for a value that is no sequence of rows',
+                                '%s(%s) is stored into the flat data on a path on which ITERABLE(%s) is %s and ITERABLE(%s[0]) is %s: for a '
+                                'scalar or a flat sequence the join (or the len()/[0] probe on the way to it) raises, so `a[i, j] = 5` / '
+                                '`a[i, :] = [1, 2]` fail where the list-of-rows model assigns' % (call_name(leaf), V, V, vi, V, v0))
+            else:
+                once.missing(rule + '.value-flattening', '%s: value stored into the flat data not recognised as <value> / join of its rows: %s' % (
+                    q, u(leaf)[:80]))
+    once.flush()
+    if not once.n_bad:
+        ck.ok(rule + '.accepted-index-writes', mod, fn, '%s: %d paths accept an index form' % (q, n_forms), 'each ends in a store into a representation or the recursive call')
+        ck.ok(rule + '.value-flattening', mod, fn, '%s: %d flat-data stores on the paths' % (q, n_flat),
+              'the rows of the value are joined exactly for a non-empty sequence of sequences')
+    ck.floor(rule + '.accepted-index-writes', n_forms, 4, 'paths of __setitem__ that accept an index form')
+    ck.floor(rule + '.value-flattening', n_flat + once.n_bad, 2, 'flat-data stores with a recognised value')
+
+
+def _writer_helpers(mod):
+    methods = [(q, fn) for q, fn in mod.functions.items() if q.startswith(CLS + '.') and '<locals>' not in q]
+    helper = set()
+    while True:
+        found = {q.split('.', 1)[1] for q, fn in methods if _is_private(q.split('.', 1)[1]) and Ctx(mod, fn, helper).has_events()}
+        if found <= helper:
+            return helper
+        helper |= found
+
+
+def _is_wrap(s, V):
+    """`V = [V]` (also (V,), np.array([V])): a flat row made a sequence of one row."""
+    if not (isinstance(s, ast.Assign) and len(s.targets) == 1 and isinstance(s.targets[0], ast.Name) and s.targets[0].id == V):
+        return False
+    x = _unwrap_seq(s.value)
+    return isinstance(x, (ast.List, ast.Tuple)) and len(x.elts) == 1 and isinstance(x.elts[0], ast.Name) and x.elts[0].id == V
+
+
+def d6_append_forms(ck, mod):
+    """`a.append(values)`: (1) a ragged argument contributes its rows exactly when it is one; (2) re-running the
+    constructor on the ARGUMENT discards the present content, so it is reached only for a blank array; (3) a flat row
+    is wrapped into a one-row sequence exactly when the first element is not iterable, and the row-wise join
+    np.concatenate(values) is not reached with a flat row."""
+    q = CLS + '.append'
+    fn = mod.functions.get(q)
+    rule = 'C06.D6.append'
+    if fn is None or len(params(fn)) < 2:
+        ck.missing(rule, '%s(self, values) not found' % q)
+        return
+    cx = Ctx(mod, fn, _writer_helpers(mod))
+    V = cx.params[1]
+    cs = Cases.of(cx)
+    if cs.overflow:
+        ck.missing(rule, '%s: more than %d paths' % (q, Cases.LIMIT))
+        return
+    once = _Once(ck, mod, q)
+    _ragged_operand(ck, mod, q, cx, V, once)
+    kVI, kVN, kV0 = ('iter', V), ('nonempty', V), ('iter', '%s[0]' % V)
+    n_re, n_wrap, n_join = 0, 0, 0
+    for p in cs.paths:
+        if p.outcome == 'raise':
+            continue
+        for i, e, kind, what, extra in _events_on(cx, p, ('reinit',)):
+            if not extra or cx.roots(extra[0], e.node):
+                continue                    # rebuilt from the object's own rows
+            n_re += 1
+            sizes = {k: v for k, v in e.env.items() if k[0] == 'nonempty' and (k[1] == cx.me or k[1].startswith(cx.me + '.'))}
+            if not any(v is False for v in sizes.values()):
+                state = 'NON-EMPTY' if any(v is True for v in sizes.values()) else 'not known to be empty'
+                once.decide(_tri(p, None, (cx.me,)), rule + '.reinit-guard', e.node, 're-initialisation from the argument on a non-blank array',
+                            '`%s` replaces all three representations by those of the argument; it is executed on a path on which the array is '
+                            '%s: append() then DISCARDS the existing rows instead of adding after them (and a blank array takes the path that '
+                            'joins to the existing flat data)' % (u(e.node)[:80], state))
+        wrapped = False
+        for i, e in enumerate(p.trace):
+            if e.kind != 'stmt':
+                continue
+            if _is_wrap(e.node, V):
+                wrapped = True
+                n_wrap += 1
+                vi, v0 = e.env.get(kVI), e.env.get(kV0)
+                if v0 is not False or vi is False:
+                    once.decide(_tri(p, None, (V,)), rule + '.row-forms.wrap', e.node, 'argument wrapped into a one-row sequence although it is no flat row',
+                                '`%s` is executed on a path on which ITERABLE(%s) is %s and ITERABLE(%s[0]) is %s: a sequence of rows [r1, r2] '
+                                'becomes ONE row (of row objects) where the list-of-rows model appends two rows; a scalar is wrapped and fails later'
+                                % (u(e.node), V, vi, V, v0))
+                continue
+            if wrapped or not isinstance(e.node, (ast.Assign, ast.Expr, ast.AugAssign, ast.AnnAssign)):
+                continue
+            for c in walk_expr(e.node.value) if e.node.value is not None else []:
+                if isinstance(c, ast.Call) and call_name(c) in _JOIN_FUNCS and len(c.args) >= 1 and isinstance(c.args[0], ast.Name) and c.args[0].id == V:
+                    n_join += 1
+                    # what the path knows about the first element at the join or finds out later, before `V` is rebound
+                    v0, vn = e.env.get(kV0), e.env.get(kVN)
+                    for t in p.trace[i + 1:]:
+                        if t.kind == 'stmt' and isinstance(t.node, ast.Assign) and any(isinstance(x, ast.Name) and x.id == V for x in t.node.targets):
+                            break
+                        if t.kind == 'atom' and t.key == kV0 and v0 is None:
+                            v0 = t.val
+                        if t.kind == 'atom' and t.key == kVN and vn is None:
+                            vn = t.val
+                    if v0 is False and vn is not False:
+                        once.decide(_tri(p, None, (V,)), rule + '.row-forms.wrap', e.node, 'rows of the argument joined for a flat row',
+                                    '%s(%s) is reached, without the argument having been wrapped, on a path on which its first element is '
+                                    'NOT iterable: a.append([6, 7]) raises "zero-dimensional arrays cannot be concatenated" on a non-blank '
+                                    'array (the arm written for the flat-row form is never taken)' % (call_name(c), V))
+    once.flush()
+    if not once.n_bad:
+        ck.ok(rule + '.reinit-guard', mod, fn, '%s: %d paths re-run the constructor on the argument' % (q, n_re), 'each only for a blank array')
+        ck.ok(rule + '.row-forms.wrap', mod, fn, '%s: %d paths wrap a flat row, %d join the rows of the argument' % (q, n_wrap, n_join),
+              'a flat row is wrapped exactly when its first element is not iterable')
+
+
+
+# -- reductions and the flat copy
+
+_REDUCTIONS = ('all', 'any', 'max', 'min', 'sum', 'mean', 'flatten', 'argmax', 'argmin', 'std', 'var', 'prod')
+
+
+def d2_reductions(ck, mod):
+    """`a.max()`, `a.min()`, `a.all()`, `a.any()`, `a.flatten()` observe the content: each is the reduction OF THAT
+    NAME over the flat data, which holds every element exactly once.  Another reduction in the same role (min for max,
+    any for all) or a reduction of something else than the whole flat data is a different observation."""
+    rule = 'C06.D2.pure-operators.reduction'
+    n = 0
+    for name in _REDUCTIONS:
+        q = '%s.%s' % (CLS, name)
+        fn = mod.functions.get(q)
+        if fn is None:
+            continue
+        cx = Ctx(mod, fn)
+        if len(cx.params) != 1:
+            continue            # takes arguments (axis ...): not the whole-array reduction
+        rets = [r for r in returns_of(fn) if r.value is not None]
+        if len(rets) != 1:
+            ck.missing(rule, '%s: expected a single return' % q)
+            continue
+        n += 1
+        E = cx.vexpand(rets[0].value, rets[0])
+        me_data = '%s._data' % cx.me
+        # canonical form of np.<f>(x) is x.<f>() for the reductions the front end knows; accept both spellings
+        got = None
+        if isinstance(E, ast.Call) and all(k.arg == 'axis' and isinstance(k.value, ast.Constant) and k.value.value is None for k in E.keywords):
+            if isinstance(E.func, ast.Attribute) and not E.args and u(E.func.value) == me_data:
+                got = E.func.attr
+            elif (call_name(E) or '').startswith('np.') and len(E.args) == 1 and u(E.args[0]) == me_data:
+                got = call_name(E)[3:]
+        got = {'amax': 'max', 'amin': 'min', 'nanmax': None, 'nanmin': None}.get(got, got)
+        if got == name:
+            ck.ok(rule, mod, rets[0], '%s: %s' % (q, u(rets[0])), 'the reduction of that name over the whole flat data')
+        elif got in _REDUCTIONS:
+            ck.bad(rule, mod, rets[0], q, 'reduction computed by %s()' % name,
+                   '%s() returns %s: the `%s` of the flat data where the list-of-rows model gives the `%s` of all elements' % (name, u(E), got, name))
+        elif name == 'flatten' and got in ('ravel', 'reshape', 'view'):
+            ck.bad(rule, mod, rets[0], q, 'reduction computed by %s()' % name,
+                   'flatten() returns %s, a VIEW of the flat data: a store into the result alters the ragged array behind the rows' % u(E))
+        else:
+            ck.missing(rule, '%s: return value not recognised as a reduction of the whole flat data: %s' % (q, u(E)[:100]))
+    ck.floor(rule, n, 4, 'whole-array reductions of the class')
+
+
 def check(ck):
     del _REPO[:]
+    Cases._cache.clear()
     _REPO.append(ck.repo)
     mod = ck.repo.mod(RA)
     writers, pure = d1_writers(ck, mod)
@@ -2731,6 +3610,10 @@ def check(ck):
     d6_flat_dtype(ck, mod, writers)
     d6_value_probe(ck, mod)
     d2_reflected_dispatch(ck, mod)
+    d1_constructor_cases(ck, mod)
+    d1_setitem_forms(ck, mod)
+    d6_append_forms(ck, mod)
+    d2_reductions(ck, mod)
     # added after the seeding rounds (DESIGN.md 11.2, G5): every instance slot read by
     # the constructor is stored first, for every combination of its branch conditions
     from . import extra
